@@ -1,13 +1,18 @@
 // C17 implementation driver: zix_sem_* from /repo/src/posix/sem_posix.c
 //
-// Linked with -Wl,--wrap=clock_gettime,--wrap=sem_timedwait,--wrap=sem_wait,--wrap=sem_trywait.
+// Linked with -Wl,--wrap=clock_gettime,--wrap=sem_timedwait,--wrap=sem_wait,--wrap=sem_trywait and
+// --wrap=sem_getvalue,--wrap=sem_post,--wrap=sem_init,--wrap=sem_destroy (calls the model does not prescribe:
+// recorded as unexpected when made inside a scripted zix wait).
 // Scripted cases (E/W/Y/D): the wrappers feed a script of results and a chosen "now", and capture the
 // timespec given to sem_timedwait.  Real-kernel cases (I/K/R): the wrappers pass through and only count
 // EINTR results per worker thread.
 //
 //   E <errno>                                   zix_errno_status
 //   W <script> | Y <script>                     zix_sem_wait / zix_sem_try_wait over scripted results
-//   D <clk> <now_sec> <now_nsec> <s> <ns> <script>   zix_sem_timed_wait with scripted clock + results
+//   D <clk> <now_sec> <now_nsec> <s> <ns> <script> [<count>]   zix_sem_timed_wait with scripted clock + results on
+//                                               a semaphore whose real count is <count> (default 0)
+//   Q <ms>                                      real: count 1; a timed waiter is parked just before its first clock /
+//                                               blocking call while a competitor takes the unit; it must time out
 //   I <init> <progs> <sched>                    lock-step run of real threads on a real semaphore
 //   K <init> <posters> <posts> <waiters> <waits> <tryers> <tries>   free-running contention smoke run
 //   R <s> <ns> <post_after_ms|->                real timed wait measured with CLOCK_MONOTONIC
@@ -51,6 +56,10 @@ int __real_clock_gettime(clockid_t, struct timespec*);
 int __real_sem_wait(sem_t*);
 int __real_sem_trywait(sem_t*);
 int __real_sem_timedwait(sem_t*, const struct timespec*);
+int __real_sem_getvalue(sem_t*, int*);
+int __real_sem_post(sem_t*);
+int __real_sem_init(sem_t*, int, unsigned);
+int __real_sem_destroy(sem_t*);
 
 typedef struct {
   pthread_t       th;
@@ -79,6 +88,58 @@ static int             clock_err, clock_calls, clock_id_seen;
 static struct timespec clock_now;
 static struct timespec ts_seen;
 static int             ts_calls, ts_same;
+
+static char unexpected[128]; // sem_* calls made inside a scripted wait that the model does not prescribe
+
+static void note_unexpected(const char* name)
+{
+  if (script_on && strlen(unexpected) + strlen(name) + 2 < sizeof(unexpected)) {
+    if (unexpected[0]) {
+      strcat(unexpected, ",");
+    }
+    strcat(unexpected, name);
+  }
+}
+
+int __wrap_sem_getvalue(sem_t* s, int* v)
+{
+  note_unexpected("getvalue");
+  return __real_sem_getvalue(s, v);
+}
+
+int __wrap_sem_post(sem_t* s)
+{
+  note_unexpected("post");
+  return __real_sem_post(s);
+}
+
+int __wrap_sem_init(sem_t* s, int shared, unsigned value)
+{
+  note_unexpected("init");
+  return __real_sem_init(s, shared, value);
+}
+
+int __wrap_sem_destroy(sem_t* s)
+{
+  note_unexpected("destroy");
+  return __real_sem_destroy(s);
+}
+
+// Q cases: the thread that has `park_me` set stops at its first clock / blocking call until released
+static __thread int park_me;
+static atomic_int   parked, released;
+
+static void park_point(void)
+{
+  if (park_me) {
+    park_me = 0;
+    atomic_store(&parked, 1);
+    while (!atomic_load(&released)) {
+      struct timespec d = {0, 100000};
+      nanosleep(&d, NULL);
+    }
+  }
+}
 
 static int scripted(void)
 {
@@ -116,6 +177,7 @@ int __wrap_clock_gettime(clockid_t id, struct timespec* ts)
     *ts = clock_now;
     return 0;
   }
+  park_point();
   return __real_clock_gettime(id, ts);
 }
 
@@ -124,6 +186,7 @@ int __wrap_sem_wait(sem_t* s)
   if (script_on) {
     return scripted();
   }
+  park_point();
   if (self) {
     atomic_store(&self->in_wait, 1);
   }
@@ -156,6 +219,7 @@ int __wrap_sem_timedwait(sem_t* s, const struct timespec* ts)
     ++ts_calls;
     return scripted();
   }
+  park_point();
   if (self) {
     atomic_store(&self->in_wait, 1);
   }
@@ -175,6 +239,7 @@ static void parse_script(const char* s)
   ts_same  = 1;
   clock_calls = 0;
   clock_id_seen = -1;
+  unexpected[0] = 0;
   if (!strcmp(s, "-")) {
     return;
   }
@@ -209,17 +274,17 @@ static void case_loop(char kind, const char* scr)
   const ZixStatus st = (kind == 'W') ? zix_sem_wait(&sem) : zix_sem_try_wait(&sem);
   script_on         = 0;
   if (script_exhausted) {
-    printf("blocked || calls=%d\n", script_calls - 1);
+    printf("blocked || calls=%d unexp=%s\n", script_calls - 1, unexpected[0] ? unexpected : "-");
   } else {
-    printf("st=%s || calls=%d\n", status_name(st), script_calls);
+    printf("st=%s || calls=%d unexp=%s\n", status_name(st), script_calls, unexpected[0] ? unexpected : "-");
   }
   zix_sem_destroy(&sem);
 }
 
-static void case_deadline(char** tok)
+static void case_deadline(char** tok, int n)
 {
   ZixSem sem;
-  zix_sem_init(&sem, 0);
+  zix_sem_init(&sem, n >= 8 ? (unsigned)strtoul(tok[7], NULL, 10) : 0U);
   clock_err         = atoi(tok[1]);
   clock_now.tv_sec  = (time_t)strtoll(tok[2], NULL, 10);
   clock_now.tv_nsec = (long)strtoll(tok[3], NULL, 10);
@@ -239,8 +304,8 @@ static void case_deadline(char** tok)
   } else {
     fputs(" dl=-", stdout);
   }
-  printf(" || calls=%d same=%d clk=%d/%d\n", script_exhausted ? script_calls - 1 : script_calls, ts_same,
-         clock_calls, clock_id_seen);
+  printf(" || calls=%d same=%d clk=%d/%d unexp=%s\n", script_exhausted ? script_calls - 1 : script_calls, ts_same,
+         clock_calls, clock_id_seen, unexpected[0] ? unexpected : "-");
   zix_sem_destroy(&sem);
 }
 
@@ -653,6 +718,63 @@ static void case_real_timeout(char** tok)
   zix_sem_destroy(&g_sem);
 }
 
+// ------------------------------------------------------------------ competitor takes the unit first
+typedef struct {
+  uint32_t   ns;
+  ZixStatus  st;
+  double     elapsed;
+  atomic_int done;
+} Parked;
+
+static void* parked_waiter(void* arg)
+{
+  Parked* p = (Parked*)arg;
+  park_me   = 1; // stop at the first clock / blocking call made on behalf of the timed wait
+  const double t0 = mono_now();
+  p->st      = zix_sem_timed_wait(&g_sem, 0U, p->ns);
+  p->elapsed = mono_now() - t0;
+  park_me    = 0;
+  atomic_store(&p->done, 1);
+  return NULL;
+}
+
+static void case_parked(char** tok)
+{
+  const int ms = atoi(tok[1]);
+  Parked    p;
+  pthread_t th;
+  memset(&p, 0, sizeof(p));
+  p.ns = (uint32_t)ms * 1000000U;
+  zix_sem_init(&g_sem, 1);
+  atomic_store(&parked, 0);
+  atomic_store(&released, 0);
+  alarm(30);
+  pthread_create(&th, NULL, parked_waiter, &p);
+  const double t0 = mono_now();
+  while (!atomic_load(&parked) && !atomic_load(&p.done) && mono_now() - t0 < 5.0) {
+    msleep_real(100);
+  }
+  // the waiter has seen whatever it wanted to see; now the competitor takes the only unit
+  const ZixStatus ts = zix_sem_try_wait(&g_sem);
+  const double    t1 = mono_now();
+  atomic_store(&released, 1);
+  // no unit is available at the moment of the blocking call: TIMEOUT is due ms after now (generous slack)
+  const double limit = (double)ms / 1000.0 + 2.0;
+  while (!atomic_load(&p.done) && mono_now() - t1 < limit) {
+    msleep_real(500);
+  }
+  if (atomic_load(&p.done)) {
+    printf("st=%s try=%s late=0\n", status_name(p.st), status_name(ts));
+  } else {
+    printf("st=HANG try=%s late=1\n", status_name(ts));
+    zix_sem_post(&g_sem); // let the thread go
+  }
+  pthread_join(th, NULL);
+  alarm(0);
+  atomic_store(&released, 0);
+  zix_sem_destroy(&g_sem);
+}
+
 int main(void)
 {
   char*  line = NULL;
@@ -665,8 +787,10 @@ int main(void)
       printf("st=%s\n", status_name(zix_errno_status(atoi(tok[1]))));
     } else if (n == 2 && (!strcmp(tok[0], "W") || !strcmp(tok[0], "Y"))) {
       case_loop(tok[0][0], tok[1]);
-    } else if (n == 7 && !strcmp(tok[0], "D")) {
-      case_deadline(tok);
+    } else if ((n == 7 || n == 8) && !strcmp(tok[0], "D")) {
+      case_deadline(tok, n);
+    } else if (n == 2 && !strcmp(tok[0], "Q")) {
+      case_parked(tok);
     } else if (n == 4 && !strcmp(tok[0], "I")) {
       case_lockstep(tok);
     } else if (n == 8 && !strcmp(tok[0], "K")) {
